@@ -196,7 +196,7 @@ static void run_case(char *l) {
     for (int t = 0; t < nt; t++) { cos_spawn(thread_fn, (void *)(intptr_t)t); if (0 == nops[t]) cos_finished[t] = 1; }
     /* cos_run with two additions: stop at a fault, stop when a whole round only stuttered */
     int stuck = 0; long rounds = 0;
-    alarm(20);
+    hc_alarm(20);
     for (int i = 0; i < ns && crashed == -2; i++) cos_step((int)sched[i]);
     while (crashed == -2 && !cos_all_done()) {
         int progress = 0;
@@ -209,7 +209,7 @@ static void run_case(char *l) {
             break;
         }
     }
-    alarm(0);
+    hc_alarm(0);
     if (crashed != -2) {
         char tail[64];
         if (timedout) snprintf(tail, sizeof tail, " <timeout t%d>", crashed); else snprintf(tail, sizeof tail, " <crash t%d>", crashed);
